@@ -70,6 +70,8 @@ type LockAn struct {
 	hasIn    map[*ssa.BasicBlock]bool
 	Problems []lockProblem
 	probSeen map[string]bool
+	// bound: mutex parameters resolved to the mutex field every call site in the analysed set passes (see boundMutex)
+	bound map[*ssa.Parameter]*types.Var
 }
 
 // lockOp classifies a call as an operation on a mutex field: returns the field and +W/+R/-W/-R.
@@ -298,6 +300,9 @@ func (la *LockAn) transfer(fn *ssa.Function, s lockState, ins ssa.Instruction, l
 		cc := &x.Call
 		if fld, acq, mode, ok := lockOp(cc); ok {
 			if fld == nil {
+				fld = la.boundMutex(cc) // a mutex the function received as a parameter: the field its callers pass
+			}
+			if fld == nil {
 				return s
 			}
 			s = s.clone()
@@ -369,6 +374,9 @@ func (la *LockAn) runDefers(fn *ssa.Function, s lockState, rd *ssa.RunDefers, lo
 		}
 		if fld, acq, _, ok := lockOp(cc); ok {
 			if fld == nil {
+				fld = la.boundMutex(cc)
+			}
+			if fld == nil {
 				continue
 			}
 			if !d.Block().Dominates(rd.Block()) {
@@ -388,6 +396,71 @@ func (la *LockAn) runDefers(fn *ssa.Function, s lockState, rd *ssa.RunDefers, lo
 		}
 	}
 	return s
+}
+
+// boundMutex: the lock operation cc works on a mutex that the function received as a parameter
+// (`func resolveRow(mtx *sync.RWMutex, sch *schema, …)`, called as `resolveRow(&idx.schemaMtx, idx.schema, …)`). If every
+// static call of the function in the analysed set passes the address of one and the same mutex field, the operation is
+// an operation on that field; the lock state then flows through the helper as if the field had been named in it. A
+// parameter that is bound to different fields, to something that is not a struct field, or whose function is also used
+// as a value / started as a goroutine stays untracked (nil), as before.
+func (la *LockAn) boundMutex(cc *ssa.CallCommon) *types.Var {
+	if len(cc.Args) == 0 {
+		return nil
+	}
+	par, ok := peel(cc.Args[0]).(*ssa.Parameter)
+	if !ok || par.Parent() == nil {
+		return nil
+	}
+	if f, done := la.bound[par]; done {
+		return f
+	}
+	if la.bound == nil {
+		la.bound = map[*ssa.Parameter]*types.Var{}
+	}
+	la.bound[par] = nil // (also stops a recursion through a helper that hands its own parameter on)
+	fn := par.Parent()
+	idx := -1
+	for k, p := range fn.Params {
+		if p == par {
+			idx = k
+		}
+	}
+	if idx < 0 || la.c.usedAsValue(fn) {
+		return nil
+	}
+	var fld *types.Var
+	n, good := 0, true
+	for g := range la.scope {
+		allInstrs(g, func(i ssa.Instruction) {
+			gc := callCommon(i)
+			if gc == nil || calleeFunc(gc) != fn {
+				return
+			}
+			n++
+			if _, isGo := i.(*ssa.Go); isGo || idx >= len(gc.Args) {
+				good = false
+				return
+			}
+			f := path(gc.Args[idx]).lastField()
+			if f == nil {
+				// handed on from the caller's own mutex parameter
+				if _, isPar := peel(gc.Args[idx]).(*ssa.Parameter); isPar {
+					f = la.boundMutex(&ssa.CallCommon{Args: []ssa.Value{gc.Args[idx]}})
+				}
+			}
+			if f == nil || (fld != nil && f != fld) {
+				good = false
+				return
+			}
+			fld = f
+		})
+	}
+	if n == 0 || !good {
+		return nil
+	}
+	la.bound[par] = fld
+	return fld
 }
 
 func domPreorder(fn *ssa.Function) map[*ssa.BasicBlock]int {
